@@ -138,7 +138,7 @@ def check_signature_validity(
     for bundle in request.bundles:
         validity = bundle.expiration - bundle.inception
 
-        if validity < request.zsk_policy.max_signature_validity:
+        if validity < request.zsk_policy.min_signature_validity:
             _validity_str = fmt_timedelta(validity)
             _overlap_str = fmt_timedelta(request.zsk_policy.min_signature_validity)
             raise KSR_POLICY_SIG_VALIDITY_Violation(
